@@ -504,6 +504,11 @@ func (t *Table) Put(input *types.PutItemInput) (map[string]*types.Item, error) {
 		}
 	}
 
+	// validate the index keys before touching the table: a write is all-or-nothing
+	if err := t.validateIndexKeys(item); err != nil {
+		return nil, types.NewError("ValidationException", err.Error(), nil)
+	}
+
 	t.setItem(key, item)
 
 	for _, index := range t.Indexes {
@@ -576,6 +581,16 @@ func (t *Table) Update(input *types.UpdateItemInput) (map[string]*types.Item, er
 	})
 	if err != nil {
 		return nil, err
+	}
+
+	// the update was applied to the stored item in place: undo it when the result is not
+	// acceptable, so that a failed update leaves no trace
+	if err := t.validateIndexKeys(item); err != nil {
+		if ok {
+			t.Data[key] = oldItem
+		}
+
+		return nil, types.NewError("ValidationException", err.Error(), nil)
 	}
 
 	t.setItem(key, item)
@@ -719,4 +734,15 @@ func conditionalCheckErrorWithItem(returnValues *string, item map[string]*types.
 		MessageText: ErrConditionalRequestFailed.Error(),
 		Item:        copyItem(item),
 	}
+}
+
+// validateIndexKeys checks that the index key attributes present in the item have the declared types
+func (t *Table) validateIndexKeys(item map[string]*types.Item) error {
+	for _, index := range t.Indexes {
+		if _, err := index.keySchema.GetKey(t.AttributesDef, item); err != nil {
+			return err
+		}
+	}
+
+	return nil
 }
